@@ -1,6 +1,11 @@
 package rules
 
 import (
+	"fmt"
+	"strings"
+
+	"golang.org/x/tools/go/ssa"
+
 	"saoverif/internal/core"
 	"saoverif/internal/eff"
 	"saoverif/internal/guard"
@@ -19,7 +24,11 @@ func checkC09(r *core.Run) {
 	r.Rule("CAP-meta: model:{Metadata,Model,ExpiredData} written only from {sao Store, Complete, Renew, Terminate, UpdataPermission, Cancel, the timeout handler, model end-block, model genesis}")
 	r.Assume(aDeps)
 	r.Assume(aCG)
-	r.Assume("A-sig: sao-did VerifyJWS rejects unless the signature's kid DID is a key of the DID the manager was created with (proposal.Owner)")
+	r.Assume("A-sig: sao-did VerifyJWS rejects unless the DID part of the signature's kid equals the DID the manager was created with (proposal.Owner), and verifies the signature over the given payload with the keys of the document the resolver returns for the kid's version id (read in sao-did v0.0.12: did.go VerifyJWS, sid/sid_resolver.go Resolve)")
+	r.Rule("G-sigdoc: the sid-document lookup that verifySignature hands to the DID library returns a document only for a version id that is an element of the claimed owner's own SidDocumentVersion list (otherwise anybody verifies as any sid DID with a document of his own)")
+	ruleSigDoc(r)
+	r.Rule("G-sigpath: verifySignature returns success only after VerifyJWS succeeded on that path, with a payload derived from the proposal argument's bytes")
+	ruleSigPath(r)
 
 	sig := sigTerm()
 	sigOK := guard.Eq(sig+"#1", "nil")
@@ -85,4 +94,159 @@ func checkC09(r *core.Run) {
 		Allowed: set("sao.Store", "sao.Complete", "sao.Renew", "sao.Terminate", "sao.UpdataPermission", "sao.Cancel", "sao.EndBlock", "pseudo:HandleTimeoutOrder", "model.EndBlock", "model.InitGenesis"),
 	})
 	r.Floor("cap_roots_CAP-meta", r.Counters["cap_roots_CAP-meta"], 40)
+}
+
+// ruleSigDoc (G-sigdoc): the closure passed to saodid.NewDidManagerWithDid in
+// verifySignature answers with a non-nil document only on paths that tested
+// the requested version id for membership in the owner's version list.
+func ruleSigDoc(r *core.Run) {
+	const id = "G-sigdoc"
+	fnName := "sao/keeper.Keeper.verifySignature"
+	fn := r.Func(id, fnName)
+	if fn == nil {
+		return
+	}
+	res := r.Resolver(fn)
+	var clo *ssa.Function
+	for _, b := range fn.Blocks {
+		for _, ins := range b.Instrs {
+			c, ok := ins.(ssa.CallInstruction)
+			if !ok {
+				continue
+			}
+			name, _ := res.CalleeName(c.Common())
+			if !strings.HasSuffix(name, "NewDidManagerWithDid") {
+				continue
+			}
+			for _, a := range c.Common().Args {
+				v := a
+				if u, ok := v.(*ssa.UnOp); ok { // closure held in a local
+					if al, ok := u.X.(*ssa.Alloc); ok {
+						for _, ref := range *al.Referrers() {
+							if st, ok := ref.(*ssa.Store); ok && st.Addr == al {
+								v = st.Val
+							}
+						}
+					}
+				}
+				if ch, ok := v.(*ssa.ChangeType); ok {
+					v = ch.X
+				}
+				if mc, ok := v.(*ssa.MakeClosure); ok {
+					clo, _ = mc.Fn.(*ssa.Function)
+				}
+			}
+		}
+	}
+	if clo == nil {
+		r.Undecide(id, core.Key(id, fnName, "lookup closure"), r.P.FuncPos(fn), "unresolved anchor: the sid-document lookup closure passed to NewDidManagerWithDid was not found")
+		return
+	}
+	ck := &guard.Checker{P: r.P, Fn: clo, Res: r.Resolver(clo)}
+	member := guard.Eq("elem(*GetSidDocumentVersion(*free:owner*)#0.VersionList)", "#0")
+	n := 0
+	for _, b := range clo.Blocks {
+		ret, ok := b.Instrs[len(b.Instrs)-1].(*ssa.Return)
+		if !ok || len(ret.Results) == 0 {
+			continue
+		}
+		if c, isC := ret.Results[0].(*ssa.Const); isC && c.Value == nil {
+			continue // returns no document
+		}
+		n++
+		key := core.Key(id, fnName, fmt.Sprintf("document returned#%d", n))
+		ok2, w := ck.MustPass(b, []guard.Atom{member})
+		switch {
+		case ok2:
+			r.Discharge(id, key, r.P.Pos(ret.Pos()), "a document is returned only after the requested version id matched an element of the owner's version list")
+		case len(w) == 1 && w[0] == guard.StateBound:
+			r.Undecide(id, key, r.P.Pos(ret.Pos()), "abstract-state bound exceeded")
+		default:
+			r.Violate(id, key, r.P.Pos(ret.Pos()), "the sid-document lookup used for signature verification returns a document for a version id that was not tested against the claimed owner's own version list: a signer holding any sid document can name another DID in the kid (did:sid:<victim>?version-id=<own document>) and is accepted as that DID's owner", append([]string{"path (branch decisions):"}, w...)...)
+		}
+	}
+	r.Floor("sigdoc_returns", n, 1)
+}
+
+// ruleSigPath (G-sigpath): verifySignature returns success only after a
+// successful VerifyJWS on every path (no shortcut such as a cache keyed without
+// the payload), and the payload handed to VerifyJWS is derived from the bytes of
+// the proposal argument (the signature is over exactly that request).
+func ruleSigPath(r *core.Run) {
+	const id = "G-sigpath"
+	fnName := "sao/keeper.Keeper.verifySignature"
+	fn := r.Func(id, fnName)
+	if fn == nil {
+		return
+	}
+	res := r.Resolver(fn)
+	ck := &guard.Checker{P: r.P, Fn: fn, Res: res}
+	verified := guard.Eq("*DidManager.VerifyJWS(*)#1", "nil")
+	n := 0
+	for _, b := range fn.Blocks {
+		ret, ok := b.Instrs[len(b.Instrs)-1].(*ssa.Return)
+		if !ok || len(ret.Results) != 2 {
+			continue
+		}
+		if c, isC := ret.Results[1].(*ssa.Const); !isC || c.Value != nil {
+			continue // returns an error value
+		}
+		n++
+		key := core.Key(id, fnName, fmt.Sprintf("success return#%d", n))
+		ok2, w := ck.MustPass(b, []guard.Atom{verified})
+		switch {
+		case ok2:
+			r.Discharge(id, key, r.P.Pos(ret.Pos()), "success is returned only after VerifyJWS returned no error")
+		case len(w) == 1 && w[0] == guard.StateBound:
+			r.Undecide(id, key, r.P.Pos(ret.Pos()), "abstract-state bound exceeded")
+		default:
+			r.Violate(id, key, r.P.Pos(ret.Pos()), "verifySignature can return success on a path that did not pass a successful VerifyJWS over this request (a shortcut such as a remembered earlier verification): a signature made for one request then authorises another", append([]string{"path (branch decisions):"}, w...)...)
+		}
+	}
+	r.Floor("sig_success_returns", n, 1)
+	// payload provenance
+	np := 0
+	for _, c := range fn.Blocks {
+		for _, ins := range c.Instrs {
+			call, ok := ins.(ssa.CallInstruction)
+			if !ok {
+				continue
+			}
+			name, _ := res.CalleeName(call.Common())
+			if !strings.HasSuffix(name, "DidManager.VerifyJWS") {
+				continue
+			}
+			args := call.Common().Args
+			arg := args[len(args)-1]
+			var al *ssa.Alloc
+			if u, ok := arg.(*ssa.UnOp); ok {
+				al, _ = u.X.(*ssa.Alloc)
+			}
+			key := core.Key(id, fnName, "payload is the proposal's bytes")
+			okP := false
+			if al != nil {
+				for _, ref := range *al.Referrers() {
+					fa, ok := ref.(*ssa.FieldAddr)
+					if !ok || fieldNameT(fa.X.Type(), fa.Field) != "Payload" {
+						continue
+					}
+					for _, r2 := range *fa.Referrers() {
+						if st, ok := r2.(*ssa.Store); ok {
+							np++
+							t := normT(res.Of(st.Val).String())
+							if strings.Contains(t, ".Marshal(#3)#0") {
+								okP = true
+							}
+						}
+					}
+				}
+			}
+			if okP {
+				r.Discharge(id, key, r.P.Pos(call.Pos()), "GeneralJWS.Payload is an encoding of proposal.Marshal()")
+			} else {
+				r.Violate(id, key, r.P.Pos(call.Pos()), "the payload handed to VerifyJWS is not derived from the bytes of the proposal argument: the signature is not checked against this request")
+			}
+		}
+	}
+	r.Floor("sig_payload_stores", np, 1)
 }
